@@ -19,8 +19,8 @@ func TestLiteralScan(t *testing.T) {
 		{"plain", "plain", true},
 		{`a \<% b`, "a <% b", true},
 		{`\<%= 1 %>`, "<%= 1 %>", true},
-		{`a <% b`, "", false},   // live tag
-		{`a \\<% b`, "", false}, // one backslash, then a live tag
+		{`a <% b`, "", false},       // live tag
+		{`a \\<% b`, "", false},     // one backslash, then a live tag
 		{`\<\<% x`, `\<<% x`, true}, // "\<" is plain text, the second backslash escapes the opener
 		{`abc\<`, `abc\<`, true},
 		{`a \\< b`, `a \\< b`, true},
